@@ -35,6 +35,11 @@ POOL = [
     ("export function f ( int a ) -> int { int n = 0 ; while ( 1 ) { n ++ ; if ( n > a ) break ; } do { n = n + 2 ; } while ( 0 ) "
      "if ( 0 ) { n = 99 ; } return n ; }\n", "f", [{"a": 3}, {"a": 0}]),
     ("export function f ( int a ) -> int { while ( a > 0 ) { a = a - 2 ; } return a ; }\n", "f", [{"a": 5}, {"a": -1}]),
+    # literal conditions whose value occurs nowhere else in the function
+    ("export function f ( int a ) -> int { while ( 7 ) { a = a + a ; if ( a > 40 ) break ; if ( a < -40 ) break ; } if ( 3 ) { a = a - 2 ; } "
+     "do { a = a + 5 ; } while ( 0 ) return a ; }\n", "f", [{"a": 4}, {"a": -6}]),
+    ("export function f ( float x ) -> float { if ( 2.5 ) { x = x * x ; } for ( ; 9 ; ) { x = x + x ; if ( x > 100.0 ) break ; if ( x < 0.001 ) break ; } "
+     "return x ; }\n", "f", [{"x": 1.5}, {"x": 0.25}]),
     ("export function f ( int a ) -> int { do { a = a - 3 ; } while ( a > 0 ) return a ; }\n", "f", [{"a": 7}]),
     ("export function f ( float3 v , float s ) -> float3 { float3 r = v * s ; r . x = r . y + 1.0 ; return r . zyx ; }\n", "f",
      [{"v": [1.0, 2.0, 3.0], "s": 2.0}]),
